@@ -27,7 +27,9 @@ struct Expression *_ZN4bloc15ParseExpression10expressionERNS_6ParserERNS_7Contex
   return &g_arg_expr[g_parse_expr_n++];
 }
 void _ZN4bloc3DBGEiPKcz(int level, const char *fmt, ...) { (void)level; (void)fmt; }
+#ifndef OWN_DELETE_STUB
 void VCALL_Expression_1(struct Expression *e) { (void)e; g_del_n++; }   /* delete e */
+#endif
 void _ZNSt9exceptionC2Ev(void *this) { (void)this; }
 void _ZNSt9exceptionD2Ev(void *this) { (void)this; }
 #endif
